@@ -1,11 +1,11 @@
 """C01 — see DESIGN.md §7."""
 from ._write_common import run_common
+from ..core import modules_for
 
 
 def run(ctx):
     q = ctx.tier == "quick"
-    run_common(ctx, "C01", ["SfProps.C01", "SfProps.C01Block", "SfProps.C01Aiff"], stride=2 if q else 1, l1_scripts=250 if q else 2500)
-    run_common(ctx, "C01", ["SfProps.C01", "SfProps.C01Block", "SfProps.C01Dwvw"], stride=2 if q else 1, l1_scripts=250 if q else 2500)
+    run_common(ctx, "C01", modules_for("C01"), stride=2 if q else 1, l1_scripts=250 if q else 2500)
     if not getattr(ctx, "replay", None):
         from .. import blockcamp
         blockcamp.run(ctx, "C01", 160 if q else 1600)
